@@ -71,6 +71,40 @@ func genMismatchBody(t *rapid.T, typ byte) []byte {
 	return out
 }
 
+// genWrapBody builds a body whose announced lengths exceed what is present by exactly 256 (one-octet
+// lengths) or 65536 (two-octet lengths): consistent only for an implementation that adds the lengths up
+// in a type too narrow for the sum.
+func genWrapBody(t *rapid.T, typ byte) []byte {
+	k := rapid.IntRange(0, 40).Draw(t, "wrap_present")
+	fill := rapid.SliceOfN(rapid.Byte(), k, k).Draw(t, "wrap_fill")
+	var fixed []byte
+	two := func(n int) []byte { return []byte{byte(n >> 8), byte(n)} }
+	switch typ {
+	case model.TypeAuthen:
+		switch rapid.IntRange(0, 2).Draw(t, "wrap_layout") {
+		case 0: // CONTINUE: user_msg_len(2) data_len(2) flags
+			fixed = append(append(two(0xffff), two(k+1)...), 0)
+		case 1: // REPLY: status flags server_msg_len(2) data_len(2)
+			fixed = append(append([]byte{1, 0}, two(0xffff)...), two(k+1)...)
+		default: // START: action priv type service user_len port_len rem_addr_len data_len
+			fixed = []byte{1, 1, 1, 1, 255, 1, 0, byte(k)}
+		}
+	case model.TypeAuthor:
+		if rapid.Bool().Draw(t, "wrap_reply") { // REPLY: status arg_cnt server_msg_len(2) data_len(2)
+			fixed = append(append([]byte{1, 0}, two(0xffff)...), two(k+1)...)
+		} else { // REQUEST: method priv type service user_len port_len rem_addr_len arg_cnt
+			fixed = []byte{6, 1, 1, 1, 255, 1, byte(k), 0}
+		}
+	default:
+		if rapid.Bool().Draw(t, "wrap_reply") { // REPLY: server_msg_len(2) data_len(2) status
+			fixed = append(append(two(0xffff), two(k+1)...), 1)
+		} else { // REQUEST: flags method priv type service user_len port_len rem_addr_len arg_cnt
+			fixed = []byte{2, 6, 1, 1, 1, 255, 1, byte(k), 0}
+		}
+	}
+	return append(fixed, fill...)
+}
+
 func genC19(t *rapid.T) c19Case {
 	c := c19Case{
 		ServerSecret: genSecret(t, "server_secret"),
@@ -81,7 +115,9 @@ func genC19(t *rapid.T) c19Case {
 		Session:      genSession(t),
 	}
 	c.ClientSecret = c.ServerSecret
-	switch rapid.IntRange(0, 6).Draw(t, "kind") {
+	switch rapid.IntRange(0, 7).Draw(t, "kind") {
+	case 7: // the server sees lengths that only add up in too narrow an integer type
+		c.Mode, c.Bytes = "seen", genWrapBody(t, c.Type)
 	case 0: // right key, well-formed
 		c.Mode, c.Bytes = "sent", genRequestBody(t, c.Type)
 	case 1, 2: // wrong key, well-formed cleartext
